@@ -220,6 +220,22 @@ func TestC05_NumericFields(t *testing.T) {
 		c05.one(t, obs.Hex(append([]byte{7, 1, 2, 3}, v6opt(24, lb)...)))
 		c05.one(t, obs.Hex(append([]byte{7, 1, 2, 3}, v6opt(56, v6opt(3, lb))...)))
 	}
+	// every option code with a zero-octet payload (spelled nil and empty)
+	for code := 0; code <= 160; code++ {
+		c05opt.one(t, c05Opt{Code: uint16(code)})
+	}
+	c05opt.one(t, c05Opt{Code: 65535})
+	// pointer targets at the edge of the value, and presentation-format text where wire format belongs, in every
+	// option that carries names, plain and inside a relay
+	for _, lb := range labelEdgeBuffers() {
+		for _, o := range [][]byte{v6opt(24, lb), v6opt(39, append([]byte{1}, lb...)), v6opt(56, v6opt(3, lb)), v6opt(74, lb), v6opt(58, lb), v6opt(21, lb), v6opt(33, lb), v6opt(64, lb), v6opt(65, lb)} {
+			m := append([]byte{7, 1, 2, 3}, o...)
+			c05.one(t, obs.Hex(m))
+			c05.one(t, obs.Hex(append(append(make([]byte, 34), 0, 9, byte(len(m)>>8), byte(len(m))), m...)))
+		}
+		c05opt.one(t, c05Opt{Code: 24, Payload: lb})
+		c05opt.one(t, c05Opt{Code: 39, Payload: append([]byte{0}, lb...)})
+	}
 }
 
 // TestC05_Resized: for generated valid messages containing every option type, every item at every nesting level is
@@ -379,6 +395,14 @@ var c05opt = newChk("C05", "parse-option",
 		cov := v6Cov()
 		var why refv6.Reason
 		want, verdict := refv6.DecodeOpt(c.Code, c.Payload, refv6.Top, cov.skip, &why)
+		if len(c.Payload) == 0 {
+			// a zero-octet payload is the same byte string whether it is spelled nil or empty
+			_, e1 := dhcpv6.ParseOption(dhcpv6.OptionCode(c.Code), nil)
+			_, e2 := dhcpv6.ParseOption(dhcpv6.OptionCode(c.Code), []byte{})
+			if (e1 == nil) != (e2 == nil) {
+				return obs.Failf("C05/parse-option/nil-vs-empty", "the same verdict for a zero-octet payload spelled nil or empty", "nil: %v, empty: %v (code %d)", e1, e2, c.Code)
+			}
+		}
 		got, err := dhcpv6.ParseOption(dhcpv6.OptionCode(c.Code), append([]byte{}, c.Payload...))
 		rec.Class(fmt.Sprintf("code %d/ref:%s", c.Code, verdict))
 		switch verdict {
